@@ -101,7 +101,7 @@ def fmt(x):
 
 def gen_case(rng, k):
     """One inverse problem built from a forward-simulated evolution."""
-    n_init = rng.choice([1, 1, 1, 2, 2, 3])
+    n_init = rng.choice([1, 1, 1, 1, 1, 1, 2, 2, 3])
     ions = ["Na", "K", "Ca", "Mg"]
     sol_lines = []
     present = set(["Na", "K", "Ca", "Mg", "S", "Si", "C", "Cl"])
@@ -161,7 +161,7 @@ def gen_case(rng, k):
             precip = None
     # perturbation of the final water: an unmodelled salt, inside or outside the uncertainty
     unc = rng.choice([0.02, 0.05, 0.05, 0.1])
-    pert_kind = rng.choice(["none", "inside", "inside", "outside"])
+    pert_kind = rng.choice(["none", "none", "inside", "inside", "inside", "outside"])
     pert = None
     if pert_kind != "none":
         salt = rng.choice(SALTS_PERTURB)
@@ -192,9 +192,22 @@ def gen_case(rng, k):
     others = [p for p in POOL if p not in cand]
     n_cand = rng.randint(max(2, len(cand)), 8 if rng.random() < 0.8 else 12)
     rng.shuffle(others)
-    drop_true = rng.random() < 0.12 and len(cand) > 1      # a problem whose exact model is not available
+    drop_true = rng.random() < 0.08 and len(cand) > 1      # a problem whose exact model is not available
     if drop_true:
         cand = cand[1:]
+    allow_deg = rng.random() < 0.25
+    if not allow_deg:
+        # no two candidates with the same composition up to water (Gypsum/Anhydrite, Calcite/Aragonite, ...)
+        def ckey(p_):
+            return tuple(sorted((e, v) for e, v in parse_formula(POOL[p_]).items() if e not in SKIP_ELEMS))
+        seen = set(ckey(p_) for p_ in cand)
+        if len(seen) == len(cand):
+            keep = []
+            for p_ in others:
+                if ckey(p_) not in seen:
+                    seen.add(ckey(p_))
+                    keep.append(p_)
+            others = keep
     cand += others[: max(0, n_cand - len(cand))]
     rng.shuffle(cand)
     minimal = rng.random() < 0.6
@@ -218,10 +231,10 @@ def gen_case(rng, k):
             cons[p] = rng.choice(["dis", "pre"])          # possibly contradicting the truth
         else:
             cons[p] = ""
-    force = set(p for p in cand if rng.random() < 0.08)
+    force = set(p for p in cand if rng.random() < 0.3) if rng.random() < 0.25 else set()
     rangeopt = rng.random() < 0.7
     tol = rng.choice([None, None, 1e-10, 1e-9, 1e-11])
-    mp = rng.random() < 0.15
+    mp = rng.random() < 0.1
     minwat = rng.choice([None, None, True, False])
     uncs = [unc] if rng.random() < 0.6 else [unc] + [rng.choice([0.02, 0.05, 0.08]) for _ in range(n_init)]
     balances = {}
@@ -678,22 +691,36 @@ def degenerate(phases):
 def stratum(pb):
     p = pb["p"]
     clean = (pb["ns"] == 2 and not degenerate(p["phases"]) and not any(ph["force"] for ph in p["phases"])
-             and not any(s["force"] for s in p["solns"]))
-    return "clean" if clean else "degenerate-forced-or-mixing"
+             and not any(s["force"] for s in p["solns"]) and not p["mp"])
+    return "clean" if clean else "delicate"
 
 
 # ----------------------------------------------------------------------------- Coq evaluation of the cases
 COQ_HEAD = """From Coq Require Import QArith Qabs List Bool ZArith.
-From IPV Require Import C18.Check.
+From IPV Require Import C18.Check C18.Search C18.Bits Gen.Gen_C18_bits C18.GenProofs.
 Import ListNotations.
 Open Scope Q_scope.
+Definition show (st : state) :=
+  (good st, bad st, minimal st, calls st,
+   map (fun r => (r_mask r, r_solved r, r_good r, r_bad r, r_minimal r, r_calls r)) (rev (reports st))).
 """
 
 
+def coq_replay(tag, rep):
+    tab = "[" + "; ".join("(%d%%Z, (%s, %d%%Z))" % (o[0], "true" if o[1] else "false", o[2]) for o in rep["oracle"]) + "]"
+    return ["Definition tab_%s : list (Z * (bool * Z)) := %s." % (tag, tab),
+            "Eval vm_compute in (83%%Z, %s%%Z, show (search t_sup t_bad t_min (lookup tab_%s) %d %d %s %s %d%%Z))."
+            % (tag, tag, rep["nph"], rep["nsol"], "true" if rep["minimal"] else "false", "true" if rep["range"] else "false", rep["force"])]
+
+
 def coq_cases(items):
-    """items: [(tag, pb, tol, [(mi, mt, goodmask)], final_good_masks or None)] -> .v text"""
+    """items: [(tag, pb, tol, [(mi, mt, goodmask)], final_good_masks or None)] or ("replay", tag, rep) -> .v text"""
     L = [COQ_HEAD]
-    for tag, pb, tol, models, masks in items:
+    for it in items:
+        if it[0] == "replay":
+            L += coq_replay(it[1], it[2])
+            continue
+        tag, pb, tol, models, masks = it
         L.append("Definition pb_%s : problem := %s." % (tag, coq_problem(pb, tol)))
         for mi, mt, g in models:
             L.append("Definition md_%s_%d : model := %s." % (tag, mi, coq_model(mt)))
@@ -705,11 +732,20 @@ def coq_cases(items):
 
 
 def parse_coq_out(out):
-    res = {"M": {}, "A": {}}
-    flat = re.sub(r"\s+", " ", out)
-    for m in re.finditer(r'= \(77%Z, (\d+)%Z, (\d+)%Z, \[([^\]]*)\], (true|false)\)', flat):
+    res = {"M": {}, "A": {}, "R": {}}
+    flat = re.sub(r"\s+", " ", out).replace("%Z", "")
+
+    def plist(t):
+        t = t.strip()
+        return [int(x) for x in t.split(";")] if t else []
+    for m in re.finditer(r"= \(83, (\d+), \(\[([^\]]*)\], \[([^\]]*)\], \[([^\]]*)\], (\d+), \[(.*?)\]\)\) : ", flat):
+        reps = re.findall(r"\((\d+), (\d+), \[([^\]]*)\], \[([^\]]*)\], \[([^\]]*)\], (\d+)\)", m.group(6))
+        res["R"][int(m.group(1))] = {"good": plist(m.group(2)), "bad": plist(m.group(3)), "minimal": plist(m.group(4)), "calls": int(m.group(5)),
+                                      "reports": [{"mask": int(a), "solved": int(b), "good": plist(c), "bad": plist(d), "minimal": plist(e), "calls": int(f)}
+                                                  for a, b, c, d, e, f in reps]}
+    for m in re.finditer(r'= \(77, (\d+), (\d+), \[([^\]]*)\], (true|false)\)', flat):
         res["M"][(int(m.group(1)), int(m.group(2)))] = ([b.strip() == "true" for b in m.group(3).split(";")], m.group(4) == "true")
-    for m in re.finditer(r'= \(65%Z, (\d+)%Z, (true|false)\)', flat):
+    for m in re.finditer(r'= \(65, (\d+), (true|false)\)', flat):
         res["A"][int(m.group(1))] = m.group(2) == "true"
     return res
 
@@ -718,7 +754,7 @@ def eval_shards(items, nshards=5, timeout=600):
     """split the items over several coqc processes"""
     shards = [items[i::nshards] for i in range(nshards)]
     shards = [s for s in shards if s]
-    out = {"M": {}, "A": {}}
+    out = {"M": {}, "A": {}, "R": {}}
     fails = []
     with cf.ThreadPoolExecutor(max_workers=nshards) as ex:
         futs = [ex.submit(vlib.coq_eval, coq_cases(s), timeout) for s in shards]
@@ -729,6 +765,7 @@ def eval_shards(items, nshards=5, timeout=600):
             r = parse_coq_out(txt)
             out["M"].update(r["M"])
             out["A"].update(r["A"])
+            out["R"].update(r["R"])
     return out, fails
 
 
@@ -754,6 +791,7 @@ def report(ctx, key, what, obj):
 def analyse(ctx, cases, res, stats):
     """python-side reporting checks + preparation of the Coq items.  cases: {id: case}, res: {id: result}"""
     items = []
+    replays = []
     info = {}
     for cid in sorted(cases):
         c = cases[cid]
@@ -777,9 +815,30 @@ def analyse(ctx, cases, res, stats):
                           "punch_model never calls fpunchf_end_row: the selected-output string has one row per inverse model, the selected-output table has none",
                           {"kind": "input", "input_text": c["text"], "database": "phreeqc.dat",
                            "observed": {"string_rows": len(srows), "table_rows": trows}, "expected": "equal numbers of rows"})
+        # replay of the subset search with the real solve_with_mask as tabulated oracle
+        if r.get("oracle") and not r.get("oracle_note") and r["problem"] is not None:
+            p_ = r["problem"]
+            force = 0
+            nph_ = len(p_["phases"])
+            for i, ph in enumerate(p_["phases"]):
+                if ph["force"]:
+                    force |= 1 << i
+            for i, sl in enumerate(p_["solns"]):
+                if sl["force"]:
+                    force |= 1 << (nph_ + i)
+            summ = re.findall(r"Number of models found: (\d+)\s+Number of minimal models found: (\d+)\s+"
+                              r"Number of infeasible sets of phases saved: (\d+)\s+Number of calls to cl1: (\d+)", r["out"])
+            rep = {"oracle": r["oracle"], "nph": nph_, "nsol": p_["count_solns"], "minimal": bool(p_["minimal"]), "range": bool(p_["range"]),
+                   "force": force, "summary": [int(x) for x in summ[0]] if summ else None,
+                   "snaps": [{"good": m["good"], "bad": m["bad"], "minimal": m["minimal"], "calls": m["count_calls"], "xhash": m["xhash"]} for m in r["models"]],
+                   "text": c["text"]}
+            replays.append(("replay", str(cid), rep))
+            stats["search replays"] += 1
+        elif r.get("oracle_note"):
+            stats["no oracle table: " + r["oracle_note"]] += 1
         if nm == 0:
             stats["no model reported"] += 1
-            ctx.case(("nomodel", cid), nontrivial=False)
+            ctx.case(("nomodel", c["text"]), nontrivial=False)
             continue
         try:
             pb = build_problem(r, c.get("meta"))
@@ -831,10 +890,11 @@ def analyse(ctx, cases, res, stats):
         masks = list(r["models"][-1]["good"]) if pb["minimal"] else None
         items.append((str(cid), pb, tol, models, masks))
         info[cid] = {"pb": pb, "r": r, "c": c, "models": models}
-    return items, info
+    return items, info, replays
 
 
-def judge(ctx, items, info, coq, stats):
+def judge(ctx, items, info, coq, stats, reps=None):
+    reps = reps or {}
     for tag, pb, tol, models, masks in items:
         cid = int(tag)
         c = info[cid]["c"]
@@ -864,17 +924,28 @@ def judge(ctx, items, info, coq, stats):
                    "fractions": [float(x) for x in mt["fr"]], "transfers": [float(x) for x in mt["tr"]],
                    "ranges": [[float(a), float(b)] for a, b in mt["frng"] + mt["trng"]], "tolerance": float(pb["toler"])}
             nonrange = [f for f in failed if f != "range"]
-            if nonrange:
-                if "Roundoff errors in minimal calculation" in warn:
+            # did the vector that is printed come from a solve_with_mask call that returned ERROR?  (known from the replay of the
+            # search model: which mask was solved last before this report, and what the real solver answers for that mask)
+            failed_solve = "Roundoff errors in minimal calculation" in warn
+            rp_, mo_ = reps.get(cid), coq["R"].get(cid)
+            if rp_ and mo_ and mi < len(mo_["reports"]):
+                tab_ = {o[0]: o for o in rp_["oracle"]}
+                sv = mo_["reports"][mi]["solved"]
+                if sv in tab_ and tab_[sv][3] == r["models"][mi]["xhash"]:
+                    failed_solve = not tab_[sv][1]
+                    obs["last_solved_mask"] = bin(sv)
+                    obs["solve_with_mask_returned_OK"] = bool(tab_[sv][1])
+            for cls in nonrange:
+                if failed_solve:
                     key = "C18:model-from-failed-solve"
-                    what = ("minimal_solve ignores the failure of its last solve_with_mask (warning 'Roundoff errors in minimal calculation'); "
-                            "the failed solver vector is reported as a model and violates: " + ", ".join(nonrange))
+                    what = ("minimal_solve ignores the ERROR return of its last solve_with_mask; solve_inverse then prints the failed solver's "
+                            "vector as a model, and it violates mole balance / uncertainty / sign constraints")
                 else:
-                    key = "C18:inadmissible-model:" + "+".join(nonrange)
-                    what = "reported inverse model is not an admissible mole-balance model; failed: " + ", ".join(nonrange)
+                    key = "C18:inadmissible-model:%s:%s" % (cls, stratum(pb))
+                    what = "reported inverse model is not an admissible mole-balance model; failed check: %s (stratum: %s)" % (cls, stratum(pb))
                 stats["inadmissible: " + key] += 1
                 report(ctx, key, what, {"kind": "input", "input_text": c["text"], "database": "phreeqc.dat", "model_index": mi,
-                                          "observed": obs, "expected": "check_inverse_model = true (Coq, exact arithmetic)"})
+                                        "observed": obs, "expected": "check_inverse_model = true (Coq, exact arithmetic)"})
             if "range" in failed:
                 if "Error in subroutine range" in out:
                     key = "C18:range-cl1-error"
@@ -890,10 +961,94 @@ def judge(ctx, items, info, coq, stats):
             if a is None:
                 ctx.obligation("coq-evaluation-of-case", False, "no antichain verdict for case %s" % tag)
             elif not a:
-                stats["antichain violated"] += 1
-                report(ctx, "C18:minimal-not-antichain", "with -minimal a reported model's set of phases and solutions strictly contains that of another reported model",
-                              {"kind": "input", "input_text": c["text"], "database": "phreeqc.dat", "observed": {"masks": [bin(x) for x in masks]},
-                               "expected": "no reported mask strictly contains another"})
+                hyp = oracle_consistency(reps[cid]) if cid in reps else None
+                if hyp:
+                    key = "C18:minimal-not-antichain:inconsistent-cl1"
+                    what = ("with -minimal a reported model's set of phases and solutions strictly contains that of another reported model; "
+                            "cl1's answers on this problem violate the consistency hypotheses %s of theorem minimal_models_antichain" % ", ".join(hyp))
+                else:
+                    key = "C18:minimal-not-antichain"
+                    what = "with -minimal a reported model's set of phases and solutions strictly contains that of another reported model"
+                stats["antichain violated: " + key] += 1
+                report(ctx, key, what, {"kind": "input", "input_text": c["text"], "database": "phreeqc.dat",
+                                        "observed": {"masks": [bin(x) for x in masks], "oracle_hypotheses_violated": hyp},
+                                        "expected": "no reported mask strictly contains another"})
+
+
+def oracle_consistency(rep):
+    """which hypotheses of minimal_models_antichain the tabulated cl1 oracle violates (on the tabulated masks)"""
+    tab = {o[0]: (bool(o[1]), o[2]) for o in rep["oracle"]}
+    W = rep["nph"] + rep["nsol"]
+    bad = set()
+    feas = [m for m, (ok, s) in tab.items() if ok]
+    for m, (ok, s) in tab.items():
+        if s & ~m:
+            bad.add("H_sub")
+        if s >> W:
+            bad.add("H_width")
+    for a in feas:
+        s = tab[a][1]
+        if s in tab and not tab[s][0]:
+            bad.add("H_supp")
+        if s not in tab:
+            bad.add("H_supp")            # support lost the final solution
+        if not (a >> (W - 1)) & 1:
+            bad.add("H_top")
+    feas_set = set(feas)
+    for a in feas:
+        # supersets of a feasible mask must be feasible
+        rest = ((1 << W) - 1) & ~a
+        sub = rest
+        while True:
+            b = a | sub
+            if b in tab and b not in feas_set:
+                bad.add("H_mono")
+                break
+            if sub == 0:
+                break
+            sub = (sub - 1) & rest
+        if "H_mono" in bad:
+            break
+    return sorted(bad)
+
+
+def judge_replays(ctx, replays, coq, stats):
+    for _, tag, rep in replays:
+        cid = int(tag)
+        mo = coq["R"].get(cid)
+        if mo is None:
+            ctx.obligation("coq-evaluation-of-case", False, "no search replay result for case %s" % tag)
+            continue
+        ctx.case(("replay", rep["text"]), nontrivial=len(rep["oracle"]) > 1)
+        diffs = []
+        if rep["summary"] is not None:
+            ms = [len(mo["good"]), len(mo["minimal"]), len(mo["bad"]), mo["calls"]]
+            if ms != rep["summary"]:
+                diffs.append("summary (models, minimal, infeasible, cl1 calls): model %r, engine %r" % (ms, rep["summary"]))
+        if len(mo["reports"]) != len(rep["snaps"]):
+            diffs.append("model reports %d models, engine %d" % (len(mo["reports"]), len(rep["snaps"])))
+        hashes = {o[0]: o[3] for o in rep["oracle"]}
+        for i, (a, b) in enumerate(zip(mo["reports"], rep["snaps"])):
+            for k in ("good", "bad", "minimal", "calls"):
+                if a[k] != b[k]:
+                    diffs.append("report %d: %s differs: model %r, engine %r" % (i, k, a[k], b[k]))
+                    break
+            else:
+                if hashes.get(a["solved"]) != b["xhash"]:
+                    stats["reported vector is not the vector of the last solve"] += 1
+                    report(ctx, "C18:reported-vector-not-from-last-solve",
+                           "the vector printed for a model is not the one solve_with_mask returns for the mask the search solved last",
+                           {"kind": "input", "input_text": rep["text"], "database": "phreeqc.dat", "model_index": i,
+                            "observed": {"mask_solved": a["solved"], "hash_reported": b["xhash"], "hash_of_solve": hashes.get(a["solved"])}})
+        if diffs:
+            stats["search replay mismatch"] += 1
+            report(ctx, "C18:search-replay-mismatch",
+                   "solve_inverse's book-keeping (good/bad/minimal lists, reported models, cl1 calls) differs from the Coq search model "
+                   "replayed with the real solve_with_mask as oracle: " + "; ".join(diffs[:3]),
+                   {"kind": "input", "input_text": rep["text"], "database": "phreeqc.dat", "observed": diffs[:20],
+                    "expected": "identical lists at every reported model and identical summary counts"})
+        else:
+            stats["search replay identical"] += 1
 
 
 def run(ctx):
@@ -911,11 +1066,12 @@ def run(ctx):
         cases = {k: gen_case(ctx.rng, k) for k in range(n)}
     jobs = [{"id": k, "text": c["text"], "oracle": True} for k, c in cases.items()]
     res = run_jobs(jobs, timeout_each=30)
-    items, info = analyse(ctx, cases, res, stats)
-    coq, fails = eval_shards(items)
+    items, info, replays = analyse(ctx, cases, res, stats)
+    coq, fails = eval_shards(items + replays)
     if fails:
         ctx.obligation("coq-evaluation-of-cases", False, fails[0])
-    judge(ctx, items, info, coq, stats)
+    judge(ctx, items, info, coq, stats, {int(t): rp for _, t, rp in replays})
+    judge_replays(ctx, replays, coq, stats)
     ctx.rule = ("forward-simulated evolutions (1..3 initial waters mixed, stoichiometric REACTION with 1..5 phases, optional unmodelled salt as "
                 "perturbation inside/outside the uncertainty) followed by INVERSE_MODELING with 2..9 candidate phases, constraints, force, "
                 "-range, -minimal, -tolerance, -mineral_water, -multiple_precision, per-element/absolute uncertainties; a case is non-trivial "
